@@ -11,7 +11,9 @@ META = {
     "text": ("Hv.C02.recover_total_prefix: for a reader that maps a short block header and a short payload to EOF, every crash image of "
              "every chronicler history (Write/Sync/Close/reopen, any entry sizes) loads to the entries of a prefix of the flushed blocks "
              "that contains everything loadable at the last completed fsync; append_after_recovery: with an open that cuts the torn tail, "
-             "writes after the recovery are loadable; run_inv ties the executable writer model to the session logs the theorems are about. "
+             "writes after the recovery are loadable; second_crash_recovers (clause Resumes): a chronicler that resumes on a recovered file, "
+             "runs any acts and crashes again anywhere loads a prefix of recovered++written that contains everything recovered before and "
+             "everything synced since; run_inv / run_started tie the executable writer model to the session logs the theorems are about. "
              "For the code as it is: torn_block_load_error / not_recovers_of_torn_error (a torn payload is a load error, the swamp comes "
              "back empty), append_after_torn_tail_strands (loadEntries_strands: nothing behind a torn block is ever loaded), "
              "torn_create_bricks (a partial file header makes every later Write fail), C02_partial (crash points that leave at most a "
@@ -45,6 +47,7 @@ def spec_scan(ops, impl):
     blk_n, flushed = {}, []
     written, at_op, syncs = [], {}, []
     acked, pending_ack, nops = [], None, 0   # (first op index after an acknowledged Sync/Close, entries written by then)
+    cut = False
     for i, op in enumerate(ops):
         if i >= len(impl):
             break
@@ -56,6 +59,7 @@ def spec_scan(ops, impl):
         if f[0] == "case":
             written, at_op, syncs = [], {}, []
             acked, pending_ack, nops = [], None, 0
+            cut = False
             blk_n, flushed = {}, []     # entries per block id; (op index of a completed payload write, entries on disk by then)
         elif f[0] == "blk":
             blk_n[f[1]] = len(f[4].split(";")) if f[4] not in ("", "-") else 0
@@ -64,7 +68,24 @@ def spec_scan(ops, impl):
         elif f[0] == "act" and f[1] in ("sync", "close") and rep == "ok ok" and (written or nops):
             # Sync()/Close() returned nil to the caller (what fileWriterHandler treats as durable)
             pending_ack = len(written) if nops or True else None
+        elif f[0] == "act" and f[1] == "load" and cut:
+            # the file was cut by hand (a first crash) and this is the first recovery: it must be a
+            # prefix of what was written; from here on it is the durable baseline of a resumed session
+            cut = False
+            got = rep.split(" ")[1].split("\t")[0] if " " in rep else "?"
+            for m in range(len(written), -1, -1):
+                st = {}
+                S.apply_items(st, ",".join(written[:m])) if m else None
+                if S.fmt_state(st) == got:
+                    written = written[:m]
+                    syncs, flushed, pending_ack = [], [], None
+                    acked = [(nops, m)]
+                    break
+            else:
+                bad.append((i, "the load after a torn tail returns %s, which is not the replay of a prefix of what was written" % got, "recover"))
         elif f[0] in ("log", "plant"):
+            if f[0] == "plant" and f[2] == "trunc":
+                cut = True
             idx = int(f[1])
             nops = idx + 1
             at_op[idx] = len(written)
@@ -136,10 +157,12 @@ def run(ctx):
         ctx.violation("harness does not build against /repo", {"correspondence": "C02", "log": getattr(ctx, "hx_log", "")[-2000:]},
                       tag="build", found_input=False)
     K.decide_standard(ctx, corrs, FINDINGS)
+    covered = S.impl_reported(ctx, spec_violated)
     K.report_mismatch(ctx, spec_violated)
     bad = spec_scan(c.ops, c.impl) if not c.err else []
     mism = set(c.mismatch)
-    unflagged = [h for h in S.relevant_hits(bad, c.flags, K.known_ids("C02"), CLASSES, -1) if h[0] not in mism]
+    unflagged = [h for h in S.relevant_hits(bad, c.flags, K.known_ids("C02"), CLASSES, -1)
+                 if not (covered and h[0] in mism)]
     if unflagged:
         i, why, _ = unflagged[0]
         rep = K.case_replay(c, K.case_of(c, i), upto=i)
